@@ -39,7 +39,17 @@ def _imports():
 def make_sut(cfg):
     m = _imports()
     if cfg["kind"] == "toy":
-        return m["Memory"](m["AddressingType"].HALF_WORD, 12, address_range=range(4096)), None
+        # the TOY memory exactly as the TOY architectural state builds it
+        from architecture_simulator.uarch.toy.toy_architectural_state import ToyArchitecturalState
+
+        return ToyArchitecturalState().memory, None
+    if cfg["kind"] == "flat":
+        # the uncached RISC-V data memory exactly as the RISC-V architectural state builds it
+        from architecture_simulator.uarch.riscv.riscv_architectural_state import RiscvArchitecturalState
+        from architecture_simulator.uarch.memory.cache import CacheOptions
+
+        off = CacheOptions(False, 0, 0, 1, "wb", "lru", 0)
+        return RiscvArchitecturalState(data_cache_options=off, instruction_cache_options=off).memory, None
     if cfg["kind"] == "flat-full":
         # the same store without a lower bound (first data address 0): every cell of a multi-cell access
         # wraps modulo 2^32 on its own
@@ -401,13 +411,16 @@ def exec_cache(trace, prop) -> Result:
                     if post_ctr != pre_ctr:
                         res.violate("C09", "uncounted-operation-changed-counters", at=i, expected=list(pre_ctr), got=list(post_ctr), op=op)
                         break
-                # outside the accounting claim: resynchronise the reference (counted in evidence)
-                ref.resync(impl_sets(sut, idxs))
-                ref.hits, ref.acc, ref.last = post_ctr[:3]
                 if kind in ("R", "W"):
+                    # rejected accesses and uncounted reads are outside the accounting claim: resynchronise
+                    # the reference's residency (counted in evidence).  Preloads and inspections are NOT
+                    # accesses: whatever they do to the cache shows in the hit counts of later accesses.
+                    ref.resync(impl_sets(sut, idxs))
+                    ref.hits, ref.acc, ref.last = post_ctr[:3]
                     res.relaxations["C09 reference resynchronised after " + ("rejected access" if rejected else "uncounted read")] += 1
                 if kind == "RESET":
                     ref.clear()
+                    ref.hits, ref.acc, ref.last = post_ctr[:3]  # reset() is not claimed to clear the counters
 
         # ---------------- C10: replacement policy against the block accesses the set really received
         # (recorded by a spy on Cache.read_block / Cache.write_block of this instance, so that what the
@@ -798,6 +811,142 @@ def exec_setwalk(trace, prop) -> Result:
 
 
 # ---------------------------------------------------------------------------
+# instruction-cache walk (C11): drives InstructionMemoryCacheSystem directly, as memsim does for the data side
+
+
+def gen_icwalk_trace(seed):
+    from ..core import rng as R
+
+    r = R.stream(seed, "icwalk")
+    strat = r.choice(["lru", "plru"])
+    ways = r.choice([1, 2, 4, 8]) if strat == "plru" else r.choice([1, 2, 3, 4, 5, 8])
+    cfg = {"kind": "icwalk", "strat": strat, "ways": ways, "ib": r.randint(0, 3), "bb": r.choice([0, 1, 1, 2, 2, 3]),
+           "pen": r.choice([0, 1, 3, 7]), "prepopulated": r.random() < 0.3}
+    nprog = r.choice([r.randint(1, 6), r.randint(4, 40), r.randint(30, 120)])
+    ops = [["LOAD", nprog]]
+    pc = 0
+    for _ in range(r.choice([r.randint(1, 10), r.randint(8, 60), r.randint(40, 150)])):
+        k = r.random()
+        if k < 0.55:
+            pc = pc + 4  # sequential fetch
+        elif k < 0.8:
+            pc = 4 * r.randrange(nprog)  # jump
+        elif k < 0.9:
+            pc = max(0, pc - 4 * r.randint(1, 6))  # short backward jump (loop)
+        elif k < 0.93:
+            ops.append(["RESET"])
+            nprog = r.choice([r.randint(1, 6), r.randint(4, 40)])
+            ops.append(["LOAD", nprog])
+            pc = 0
+            continue
+        elif k < 0.96:
+            ops.append(["INSPECT"])
+            continue
+        if pc >= 4 * nprog:
+            pc = 4 * r.randrange(nprog)
+        ops.append(["F", pc])
+    return {"config": cfg, "ops": ops}
+
+
+def exec_icwalk(trace, prop) -> Result:
+    from architecture_simulator.isa.riscv.rv32i_instructions import ADDI
+    from architecture_simulator.uarch.memory.instruction_memory import InstructionMemory
+    from architecture_simulator.uarch.memory.instruction_memory_cache_system import InstructionMemoryCacheSystem
+    from architecture_simulator.uarch.riscv.riscv_performance_metrics import RiscvPerformanceMetrics
+
+    cfg = trace["config"]
+    res = Result()
+    hs = Hasher()
+    pm = RiscvPerformanceMetrics()
+    backing = InstructionMemory()
+    generation = [0]
+
+    def program(n):
+        generation[0] += 1
+        return [ADDI(rd=(i % 31) + 1, rs1=0, imm=(generation[0] * 131 + i) % 2048) for i in range(n)]
+
+    ops = list(trace["ops"])
+    try:
+        if cfg["prepopulated"] and ops and ops[0][0] == "LOAD":
+            # the lower memory is populated first and the cache system is put in front of it afterwards
+            backing.write_instructions(program(ops[0][1]))
+            ops = ops[1:]
+            res.probes["cache system constructed around a populated instruction memory"] += 1
+        sut = InstructionMemoryCacheSystem(backing, cfg["ib"], cfg["bb"], cfg["ways"], pm, cfg["pen"], cfg["strat"])
+    except Exception as e:  # noqa: BLE001
+        res.violate("C11", "simulation-could-not-be-constructed", got=f"{type(e).__name__}: {e}"[:200], config=cfg)
+        res.digest = "ctor"
+        return res
+    ref = RefCache("ro", cfg["ib"], cfg["bb"], cfg["ways"], cfg["strat"])
+    fetches = 0
+    for i, op in enumerate(ops):
+        kind = op[0]
+        try:
+            if kind == "LOAD":
+                sut.write_instructions(program(op[1]))
+                hs.add(i, "LOAD", op[1])
+            elif kind == "RESET":
+                sut.reset()
+                ref = RefCache("ro", cfg["ib"], cfg["bb"], cfg["ways"], cfg["strat"])
+                st = sut.get_cache_stats()
+                rep = sut.cache_repr()
+                valid = [b for s_ in rep.sets for b in s_.blocks if b.valid_bit != "0"]
+                if st.get("hits") != "0" or st.get("accesses") != "0" or valid or sut.has_instructions():
+                    res.violate("C11", "state-survives-reset", at=i, expected="counters 0/0, no valid block, no instruction",
+                                got={"stats": st, "valid_blocks": len(valid), "has_instructions": sut.has_instructions()})
+                    break
+                res.probes["instruction-cache reset"] += 1
+                hs.add(i, "RESET")
+            elif kind == "INSPECT":
+                c0 = (sut.hits, sut.accesses, sut.last_was_hit, pm.cycles)
+                sut.cache_repr()
+                sut.get_cache_stats()
+                sut.get_representation()
+                sut.has_instructions()
+                if (sut.hits, sut.accesses, sut.last_was_hit, pm.cycles) != c0:
+                    res.violate("C11", "inspection-changed-counters", at=i)
+                    break
+            else:
+                a = op[1]
+                if not sut.instruction_at_address(a):
+                    if backing.instruction_at_address(a):
+                        res.violate("C11", "instruction-invisible-through-the-cache", at=i, address=a)
+                        break
+                    continue
+                c0 = pm.cycles
+                got = sut.read_instruction(a)
+                fetches += 1
+                hit, _v, _k = ref.access(a, False)
+                want = backing.instructions.get(a)
+                hs.add(i, a, repr(got), sut.hits, sut.accesses)
+                if got is not want:
+                    res.violate("C11", "fetched-wrong-instruction", at=i, address=a, expected=repr(want), got=repr(got))
+                    break
+                if (sut.accesses, sut.hits, bool(sut.last_was_hit)) != (ref.acc, ref.hits, bool(ref.last)):
+                    res.violate("C11", "hit-count", at=i, expected=[ref.acc, ref.hits, ref.last],
+                                got=[sut.accesses, sut.hits, sut.last_was_hit], address=a)
+                    break
+                if pm.cycles - c0 != (0 if hit else cfg["pen"]):
+                    res.violate("C11", "penalty-cycles", at=i, expected=0 if hit else cfg["pen"], got=pm.cycles - c0, address=a)
+                    break
+        except Exception as e:  # noqa: BLE001
+            res.violate("C11", "instruction-cache-raised", at=i, got=f"{type(e).__name__}: {e}"[:200], op=op)
+            break
+    else:
+        got_res = {k: frozenset(b.decoded_address.tag for b in st_.blocks if b.valid_bit) for k, st_ in enumerate(sut.cache.sets)}
+        want_res = {k: frozenset(t for t in ref.sets[k].tags if t is not None) for k in range(1 << cfg["ib"])}
+        if got_res != want_res:
+            res.violate("C11", "resident-blocks-differ-from-reference-cache", expected={k: sorted(v) for k, v in want_res.items()},
+                        got={k: sorted(v) for k, v in got_res.items()})
+    res.violations = [v for v in res.violations if v["property"] == prop]
+    res.sim["operations"] += len(ops)
+    res.sim["fetches"] += fetches
+    res.nontrivial = fetches >= 3 and ref.acc > ref.hits
+    res.digest = hs.hexdigest()
+    return res
+
+
+# ---------------------------------------------------------------------------
 # batches
 
 
@@ -809,6 +958,10 @@ def _describe(trace):
             return f"{op[0]}{op[1]}@0x{op[2] & MASK32:X}=0x{op[3]:X}" + ("" if 0 <= op[2] < 2**32 else f" [raw {op[2]}]")
         if op[0] == "A":
             return f"access({op[1]})"
+        if op[0] == "F":
+            return f"fetch(0x{op[1]:X})"
+        if op[0] == "LOAD":
+            return f"write_instructions({op[1]} instructions)"
         if op[0] in ("RB", "WB"):
             return f"{'read_block' if op[0] == 'RB' else 'write_block'}(0x{op[1]:X})"
         return op[0]
@@ -939,6 +1092,23 @@ class SetWalks(_MemBatch):
         mk = lambda ops: {**trace, "ops": ops}  # noqa: E731
         return mk(ddmin_list(trace["ops"], still_fails, budget, rebuild=mk))
 
+
+
+class InstructionCacheWalks(_MemBatch):
+    def __init__(self, name, runs_quick, runs_thorough):
+        self.name = name
+        self.runs_quick = runs_quick
+        self.runs_thorough = runs_thorough
+
+    def generate(self, seed):
+        return gen_icwalk_trace(seed)
+
+    def execute(self, trace, prop):
+        return exec_icwalk(trace, prop)
+
+    def shrink(self, trace, prop, still_fails, budget):
+        mk = lambda ops: {**trace, "ops": ops}  # noqa: E731
+        return mk(ddmin_list(trace["ops"], still_fails, budget, rebuild=mk))
 
 
 # ---------------------------------------------------------------------------
